@@ -260,7 +260,7 @@ CHECKS = {
         "min_obs": {"handshakes": 500, "key_lookups": 2000, "skews_checked": 1000},
     },
     "C10": {
-        "scenarios": [("C10-server", "vsim"), ("C10-client", "vsim"), ("C10-idle", "vsim"), ("C10-unreach", "vsim"), ("C10-socks", "vreal"), ("C05-probe", "vsim", 0.25)],
+        "scenarios": [("C10-server", "vsim"), ("C10-client", "vsim"), ("C10-idle", "vsim"), ("C10-unreach", "vsim"), ("C10-api", "vsim"), ("C10-socks", "vreal"), ("C05-probe", "vsim", 0.25)],
         "rides_on": ["C10"],
         "side_only": False,
         "rule": "per case 250 (quick) / 1500 (thorough) segments built by the reference codec with the valid credential of user bob: all "
